@@ -62,3 +62,18 @@ CHECKS["C05"] = (
     "Trusted: index-set computation from torch strides; the candidate enumeration of legal merges (vf/blocking.merge_is_legal). Greedy/maximal merging is not demanded.",
     "DESIGN.md 3 C05",
 )
+
+CHECKS["C01"] = (
+    "exploration",
+    "runtime monitoring: real optimizer.step() on generated configurations and histories under a step-locked float64 reference model of the documented recurrences (per block, per quantity, after every step)",
+    "Each run (320 quick / 5000 thorough; 6-25 steps; ~20k monitored block-steps quick) draws pairwise-distinct hyperparameters over the whole constructor domain (grafting kinds, beta1/beta3, decay modes, momentum/Nesterov/dampening, bias correction, root overrides int/list, exponent multiplier, ignored dims, blocking/merging, frequency/start, 1-3 groups with overrides, three dtype pairings, four root solvers, SOAP eigh/QR), absent gradients and scheduler edits. Before each step the monitor snapshots params/grads/param_groups/state; after it, it recomputes from the OBSERVED pre-state: group step counter, factor matrices, grafting accumulator, filtered gradient, inverse roots (spectral oracle within the C10 bound at refresh steps, bitwise unchanged otherwise), eigenbases (C03 checks), corrected eigenvalues, momentum buffer and the parameter (W_old - lr*P_ref with P_ref from the stored roots); blocks without gradient must be bitwise unchanged. Tolerances follow a first-order error model with magnitude tracking (DESIGN 1.4); max observed deviation/tolerance is reported. Sampled.",
+    "Trusted: vf/ref.py (transcription of the documented algorithm), the float32-scalar tolerance floor, block geometry read from a public-constructor Distributor (tiling itself is C05). Runs leaving the dtype's range, LAPACK returning NaN for a finite matrix, and ill-conditioned-by-construction factors raising PreconditionerValueError are ended without verdict and counted.",
+    "DESIGN.md 2 E3, 3 C01",
+)
+CHECKS["C04"] = (
+    "exploration",
+    "runtime monitoring: bit-level shadow snapshots of absent parameters/state and the block-keyed step-locked reference under exhaustive and random gradient-presence histories on equal-shaped parameters",
+    "Exhaustive family: all 3-step mask sequences over k=2 (quick, 6 configurations) and k=2,3 (thorough) equal-shaped parameters followed by all-present steps; random family: toggling / never-present / all-absent / bursts / random walks over 6-20 steps, optionally blocked parameters and two groups. Every absent parameter block and each of its state tensors is compared bit-for-bit (SHA-256 of raw bytes) before/after the step; the group counter must stay put on all-absent steps; every present block must follow from its own previous state (reference keyed by (parameter, block key), distinct gradient scales per parameter make cross-wiring visible). Exhaustive below the stated bound, sampled above.",
+    "Trusted: as C01. The DDP-specific masked lists are exercised by C06.",
+    "DESIGN.md 3 C04",
+)
